@@ -10,6 +10,7 @@ use std::time::SystemTime;
 use std::{borrow::Cow, sync::Mutex};
 
 use metrique_writer_core::EntryWriter;
+use metrique_writer_core::entry::SampleGroupElement;
 use metrique_writer_core::value::WithDimensions;
 use metrique_writer_core::value::{FlagConstructor, ForceFlag};
 
@@ -260,6 +261,10 @@ impl<NS: crate::NameStyle, T: InflectableEntry<NS>, F: FlagConstructor> Inflecta
             },
         );
     }
+
+    fn sample_group(&self) -> impl Iterator<Item = SampleGroupElement> {
+        <T as InflectableEntry<NS>>::sample_group(self)
+    }
 }
 
 #[diagnostic::do_not_recommend]
@@ -268,6 +273,10 @@ impl<NS: crate::NameStyle, T: InflectableEntry<NS>, const N: usize> InflectableE
 {
     fn write<'a>(&'a self, writer: &mut impl metrique_writer_core::EntryWriter<'a>) {
         <T as InflectableEntry<NS>>::write(self, &mut self.entry_writer_wrapper(writer))
+    }
+
+    fn sample_group(&self) -> impl Iterator<Item = SampleGroupElement> {
+        <T as InflectableEntry<NS>>::sample_group(self)
     }
 }
 
